@@ -16,6 +16,8 @@ RULE = (
 ASSUMPTIONS = ["admissible = feed mass and temperature positive and finite, feed/permeate mass fractions in [0,1], fluxes and heats finite (as the statement lists)"]
 SHARD_TIMEOUT = {"quick": 1500, "thorough": 14000}
 
+ANCHORS = [('pervaporation/pervaporation.py', 'Feed mass %s kg is not positive', 'feed-exhaustion guard raising'), ('pervaporation/pervaporation.py', 'Feed temperature %s K is not a positive finite number', 'temperature guard raising')]
+
 
 def shards(tier, seed):
     ni, nn = {"quick": (110, 40), "thorough": (6000, 2000)}[tier]
